@@ -85,3 +85,24 @@ chk("C17", "exploration",
     "Trusted: exact decimal definitions of the 14 unit ratios used; binary ufuncs may return a wider float and are judged at the "
     "width of the rescaled operand; 8-bit operands may refuse in place; overflow to inf of the prescribed type is allowed.",
     "dtype x route grid enumeration + Hypothesis values vs exact rational conversion", "DESIGN.md §3 C17")
+chk("C06", "exploration",
+    "Differential against NumPy itself: ~720 call templates over ~300 NumPy functions, ndarray methods (with axis/keyword "
+    "arguments), indexing forms, in-place targets and out= variants (numpy, numpy.linalg, numpy.fft) are evaluated on bare "
+    "copies of Hypothesis-drawn data and on the same data with units attached (one unit per role: no rescaling), for float64, "
+    "int64 and complex128 data; either the unyt call raises or structure, shapes, dtype kinds and values agree bit for bit "
+    "(<= 8 ulp classed as re-associated rounding), including mutated targets and out= buffers.",
+    "Trusted: NumPy on the bare data. A raise by the unyt call is accepted (the statement allows it; counted per function). "
+    "Empty arrays and string-producing functions are not compared.",
+    "catalogue enumeration x Hypothesis data, differential vs NumPy on bare arrays", "DESIGN.md §3 C06")
+chk("C07", "exploration",
+    "Metamorphic covariance over the same catalogue: every template is evaluated under coherent changes of units of the same "
+    "physical data - all roles in power-of-64 custom-registry units (bit-exact), one role only, a second registry that gives "
+    "the same symbols other sizes (history/registry independence), and ordinary m->cm, s->ms (rel 1e-9). Unit-carrying results "
+    "must denote the same SI magnitudes and dimension, bare results must be unchanged, presence of units may not depend on the "
+    "assignment; templates of the selection/reshaping/sorting/rounding/interpolation/location-spread class must return unyt "
+    "objects of the input's dimension. Includes products whose units cancel across different scales. No per-function expected "
+    "unit is used.",
+    "Trusted: SI scale/dimension of *result* units read from the library (C02/C05 judge those). Rounding family excluded from "
+    "the numeric clause; LAPACK/FFT/log-based templates judged at rel 1e-9; explicit unit strippers and unit-keeping constant "
+    "constructors (ones_like) are outside the claim.",
+    "catalogue enumeration x Hypothesis data, metamorphic change of units (bit-exact dyadic + tolerant)", "DESIGN.md §3 C07")
